@@ -121,7 +121,7 @@ Print Assumptions C14_sorted_is_oracle_order.
    language sorted at ms resolution (zero-duration and coinciding cues allowed), distinct language names *)
 Theorem C14_sami_language_order : forall cs, NoDup (map fst cs) ->
   (forall l caps, In (l, caps) cs -> caps_sorted 0 caps) ->
-  forall l caps, In (l, caps) cs -> cpars l (sami_write cs) = lang_pars caps 0.
+  forall l caps, In (l, caps) cs -> cpars l (sami_write cs) = lang_pars caps None.
 Proof. exact sami_language_order. Qed.
 Print Assumptions C14_sami_language_order.
 (* in the terms of the oracle ok_sami_body: the non-blank paragraphs of a language, each with the start of its
@@ -133,6 +133,15 @@ Theorem C14_sami_language_cues : forall cs, NoDup (map fst cs) ->
     pars_of l (sami_write cs) = map (fun c => (wc_start c / 1000, wc_text c)) caps.
 Proof. exact sami_language_cues. Qed.
 Print Assumptions C14_sami_language_cues.
+
+(* ALL inputs, no sortedness assumed: languages never mix. As multisets, each paragraph with the start of the block
+   it sits in, the paragraphs of a language in the body are exactly the writer's sequence for its cue list (blank
+   syncs included); a class that is not a language of the set has no paragraph *)
+Theorem C14_sami_languages_never_mix : forall cs, NoDup (map fst cs) ->
+  (forall l caps, In (l, caps) cs -> Permutation.Permutation (cpars l (sami_write cs)) (lang_pars caps None))
+  /\ (forall cls, ~ In cls (map fst cs) -> cpars cls (sami_write cs) = []).
+Proof. exact sami_languages_never_mix. Qed.
+Print Assumptions C14_sami_languages_never_mix.
 
 (* ---- language pick ------------------------------------------------------------------------------------------- *)
 Theorem C14_vtt_lang_option : forall l cs c, NoDup (languages cs) -> In (l, c) cs -> vtt_select (Some l) cs = Ok c.
@@ -151,6 +160,11 @@ Example C14_example_class_without_lang :
      mkP [(lit "class", lit "ENCC"); (lit "lang", lit "fr")] 1000 (lit "b");
      mkP [(lit "class", lit "NARROW")] 2000 (lit "c")]
   = [(lit "fr", [(1000000, lit "a")]); (lit "en", [(1000000, lit "b")]); (lit "und", [(2000000, lit "c")])].
+Proof. vm_compute. reflexivity. Qed.
+(* a cue ending in millisecond 0 still gets its blank sync (last_time = 0 is not `None`) *)
+Example C14_example_blank_at_zero :
+  sami_write [(lit "en", [mkWcue 0 900 (lit "a"); mkWcue 5000000 6000000 (lit "b")])]
+  = [(0, [(lit "en", lit "a")]); (0, [(lit "en", lit "&nbsp;")]); (5000, [(lit "en", lit "b")])].
 Proof. vm_compute. reflexivity. Qed.
 Example C14_example_sami_write :
   let cs := [(lit "en", [mkWcue 1000000 2000000 (lit "a1"); mkWcue 5000000 6000000 (lit "a2")]);
